@@ -125,17 +125,35 @@ def run(ctx):
             continue
         req["message"]["tx"] = bad.hex()
         world.device.mode = MODE_SIGNER
+        pending = (i % 3 == 2)
+        proto._comm_issue = False
+        if pending:
+            # the request arrives while a link failure of an earlier request is still to be repaired
+            world.reset_counters()
+            world.faults = {0: ("read",)}
+            mgr.handle_line(proto, json.dumps(reqs.make("getPubKey", ctx.rng)[0]).encode())
+            world.reset_counters()
+            if not proto._comm_issue:
+                raise core.MachineryError("could not put the manager into the repair-pending state")
         n0 = len(world.log)
         o = mgr.handle_line(proto, json.dumps(req).encode())
         rep = o.reply() or {}
         c = rep.get("errorcode")
+        touched = any(e["ev"] in ("apdu", "open", "close") for e in world.log[n0:])
+        if pending:
+            proto._comm_issue = False
+            try:
+                if not proto.hsm2dongle.dongle.opened:
+                    proto.hsm2dongle.connect()
+            except Exception:
+                proto.hsm2dongle.connect()
         t = {"kind": "reject", "code": c if isinstance(c, int) else 99,
-             "contacted": any(e["ev"] == "apdu" for e in world.log[n0:]),
+             "contacted": touched,
              "tx": unsignx.tx_rec({"ver": 1, "ins": [], "outs": b"", "lock": b""}), "out": unsignx.tx_rec({"ver": 1, "ins": [], "outs": b"", "lock": b""}),
              "keep": [], "keepout": [], "parsed": False, "raw": [], "raw2": [], "rawv": []}
         t["id"] = len(traces) + 1
         traces.append(t)
-        info[t["id"]] = {"src": "reject", "class": kind, "tx": bad.hex()[:200]}
+        info[t["id"]] = {"src": "reject", "class": kind + ("@repair-pending" if pending else ""), "tx": bad.hex()[:200]}
     res.coverage["undecodable_or_empty_script"] = n_bad
     verdicts, stats = tlc.validate("TraceUnsign", "Trace_Unsign.cfg", traces, shards=14)
     res.checker_cmds.append("tlc -workers 1 -config Trace_Unsign.cfg TraceUnsign (x%d shards)" % stats["jvms"])
